@@ -183,6 +183,16 @@ pub struct Scenario {
     pub hash_key: u64,
     pub history: Vec<HOp>,
     pub faults: Vec<Fault>,
+    /// when present, the (single) generation call's fuzzer script is produced at execution time by
+    /// steering the real generator through these opcodes (one choice byte at a time), optionally
+    /// followed by one raw choice byte; min = max = number of steered choices
+    pub steer: Option<Steer>,
+}
+
+#[derive(Clone, Debug, PartialEq)]
+pub struct Steer {
+    pub ops: Vec<String>,
+    pub tail: Option<u8>,
 }
 
 impl Scenario {
@@ -192,6 +202,7 @@ impl Scenario {
             hash_key: 0,
             history: vec![HOp::Gen(entropy)],
             faults: vec![],
+            steer: None,
         }
     }
     pub fn to_json(&self) -> Value {
@@ -200,6 +211,7 @@ impl Scenario {
             "hash_key": self.hash_key.to_string(),
             "history": self.history.iter().map(|h| h.to_json()).collect::<Vec<_>>(),
             "faults": self.faults.iter().map(|f| f.to_json()).collect::<Vec<_>>(),
+            "steer": self.steer.as_ref().map(|s| json!({"ops": s.ops, "tail": s.tail})),
         })
     }
     pub fn from_json(v: &Value) -> Result<Self, String> {
@@ -219,6 +231,13 @@ impl Scenario {
                 .map(HOp::from_json)
                 .collect::<Result<Vec<_>, _>>()?,
             faults: vec![],
+            steer: match v.get("steer") {
+                Some(st) if st.is_object() => Some(Steer {
+                    ops: st["ops"].as_array().map(|a| a.iter().filter_map(|x| x.as_str().map(|s| s.to_string())).collect()).unwrap_or_default(),
+                    tail: st["tail"].as_u64().map(|b| b as u8),
+                }),
+                _ => None,
+            },
         })
     }
     pub fn gen_calls(&self) -> usize {
